@@ -33,6 +33,21 @@ int main(void)
     env_getenv_value = envcases[LEGACY];
     cfg.legacy_crc = (LEGACY >= 3);   /* set, non-empty and not exactly "0" */
 #endif
+#ifdef PRELUDE
+    /* history: another instance of the same back end encodes one byte while the legacy switch has the OPPOSITE
+     * setting; the result below must not remember it (C15: output is a function of configuration, data and the
+     * current environment only) */
+    {
+        const char *now = env_getenv_value;
+        env_getenv_value = (now && now[0] && !(now[0] == '0' && !now[1])) ? NULL : "1";
+        int d0 = mk_instance();
+        ASSUME(d0 > 0);
+        char **e0 = NULL, **p0 = NULL; uint64_t f0 = 0; char one = 'q';
+        if (liberasurecode_encode(d0, &one, 1, &e0, &p0, &f0) == 0) liberasurecode_encode_cleanup(d0, e0, p0);
+        liberasurecode_instance_destroy(d0);
+        env_getenv_value = now;
+    }
+#endif
     int desc = mk_instance();
     ASSUME(desc > 0);
     static uint8_t src[LMAX + 1];
